@@ -66,7 +66,7 @@ CHECKS = {
         "Source level: a 23-declaration package skeleton (structs with embedding and an embedding diamond, two interfaces with a same-named method, methods, generics, alias, var, const) with reference forms chosen per slot is parsed and type-checked "
         "by the real go/parser and go/types inside the engine and analysed by the real graph construction (newGraph, graph.entry) and Results: verdicts are equal under every move of one declaration to another position, every split into two files in both file orders, "
         "exchange of two fields in a struct, repetition and reloading; an added reference in used code never makes a used object unused.",
-   note="Finite space explored exhaustively within the bound by forking (solver decides feasibility). Outside: construction of the graph from syntax (file/declaration order), everything upstream of the runner's per-variant results (loading, analysis, gob), graphs > 4 objects, > 2 listings per variant.",
+   note="Finite space explored exhaustively within the bound by forking (solver decides feasibility). Outside: construction of the graph from syntax (file/declaration order), everything upstream of the runner's per-variant results (loading, analysis, gob), graphs > 3 objects, > 2 listings per variant.",
    technique="bounded symbolic execution of go/ssa + SMT feasibility, native replay of models",
    design="3/C17"),
  "C10": dict(
